@@ -51,3 +51,4 @@
 ;; ghost recvd (Array Int Bool)
 ;; ghost alive (Array Int Bool)
 ;; ghost disposed (Array Int Bool)
+;; ghost schedStopped Bool
